@@ -6,8 +6,11 @@ given checks (default: <ID>) against the patched worktree. Records what was run 
 copies the seed to /verif/seeded/<ID>/. Never touches /repo itself."""
 import json, os, shutil, subprocess, sys, glob, time
 ID = sys.argv[1]; pkg = sys.argv[2]; checks = sys.argv[3:] or [ID]
-src = "/tmp/seeded/%s" % ID if os.path.isdir("/tmp/seeded/%s" % ID) else "/verif/seeded/%s" % ID
-wt = "/tmp/wt-verify-%s" % ID
+ROUND = os.environ.get("SEED_ROUND", "")
+SUF = ("-r" + ROUND) if ROUND else ""
+tmpsrc = "/tmp/seeded%s/%s" % (ROUND, ID)
+src = tmpsrc if os.path.isdir(tmpsrc) else "/verif/seeded/%s%s" % (ID, SUF)
+wt = "/tmp/wt-verify-%s%s" % (ID, SUF)
 env = dict(os.environ, GOFLAGS="-mod=mod", GOPROXY="off", GOSUMDB="off", GOTOOLCHAIN="local")
 def sh(cmd, cwd=None, e=None, t=3000):
     p = subprocess.run(cmd, shell=True, cwd=cwd, env=e or env, capture_output=True, text=True, timeout=t)
@@ -48,7 +51,7 @@ try:
         subprocess.run("cd /verif && git checkout -- evidence/%s.json" % c, shell=True, capture_output=True)
 finally:
     subprocess.run("git -C /repo worktree remove --force %s" % wt, shell=True, capture_output=True)
-dst = "/verif/seeded/%s" % ID
+dst = "/verif/seeded/%s%s" % (ID, SUF)
 if src != dst:
     os.makedirs(dst, exist_ok=True)
     for f in os.listdir(src):
